@@ -176,6 +176,17 @@ class Harness:
                 model[sid] = {"client_info": ci, "protocol_version": answered, "created_at": now,
                               "last_activity": now, "metadata": {}}
                 self.known.append(sid)
+        elif name == "init_noid":
+            # an initialize that arrives without an id cannot be answered, hence is not a successful initialize:
+            # it must not leave a session behind that nobody was told about
+            msg = parse_message({"jsonrpc": "2.0", "method": "initialize",
+                                 "params": {"protocolVersion": "2025-06-18", "clientInfo": {"name": "anon", "version": "0"}, "capabilities": {}}})
+            try:
+                r = self.loop.run_until_complete(self.handler.handle_message(msg))
+                if r[0] is not None:
+                    v.append(("response_to_notification", f"id-less initialize answered with {r[0]!r}"))
+            except Exception as e:  # noqa
+                v.append(("request_raised", f"handle_message(id-less initialize) raised {e!r}"))
         elif name == "request":
             sid = self.target(op[1])
             msg = parse_message({"jsonrpc": "2.0", "id": 77, "method": op[2] if len(op) > 2 else "ping"})
@@ -246,7 +257,7 @@ class Harness:
 
 
 TARGETS = [0, 1, 2]
-OPS: List[Tuple] = ([("create",), ("list_mutate",), ("clear",), ("init",), ("get",), ("init", "2025-06-18", 0)]
+OPS: List[Tuple] = ([("create",), ("list_mutate",), ("clear",), ("init",), ("get",), ("init", "2025-06-18", 0), ("init_noid",)]
                     + [("update", t) for t in TARGETS] + [("delete", t) for t in TARGETS]
                     + [("request", t) for t in TARGETS] + [("touch_meta", 0), ("notify", 0)]
                     + [("cleanup", a) for a in (0, 1, 2)] + [("advance", d) for d in (1, 2, 0.5)])
